@@ -17,7 +17,9 @@ RULE = ("every Name.attr... chain / from-import / getattr into numpy, scipy, h5p
         "unguarded reference; distinct = distinct (module, attribute) pairs; plus an import smoke test of every module")
 LEVEL_TEXT = ("the property quantifies over a finite table (all references in the source x the installed "
               "environment); both tables are regenerated on every run and the theorem is re-checked by the kernel")
-LEVEL_NOTE = ("trusted: completeness of the AST walker (dynamic attribute access via computed strings is not seen), "
+LEVEL_NOTE = ("attribute access on instances is resolved only for the results of numpy array constructors "
+              "(np.asarray(x).attr is checked against numpy.ndarray); other instance attributes are not typed. "
+              "trusted: completeness of the AST walker (dynamic attribute access via computed strings is not seen), "
               "the hand-written list of names newer than the declared minimum versions; only the INSTALLED "
               "numpy/scipy/h5py/Python can be inspected (they lie inside the declared range)")
 
@@ -92,6 +94,12 @@ def unresolved(run):
             except Exception as e:
                 bad.append({"file": rel, "line": 0, "expr": "<unparsable: %s>" % e})
                 continue
+            declared = set(ex.declared_requirements(fw.REPO))
+            for m, ln, g in [(m, ln, g) for m, ln, g in v.imports] + [(m, ln, g) for m, nm, ln, g in v.from_imports]:
+                top = m.split(".")[0]
+                if not g and top not in ex.OPTIONAL and top not in ex.STDLIB and top.lower() not in declared:
+                    bad.append({"file": rel, "line": ln, "expr": "import " + m,
+                                "why": "is neither standard library nor declared in install_requires (%s)" % sorted(declared)})
             items = [(r, ch, ln, g) for r, ch, ln, g in v.refs] + \
                     [(m, [nm], ln, g) for m, nm, ln, g in v.from_imports if nm != "*"]
             for rootp, chain, line, g in items:
@@ -100,6 +108,12 @@ def unresolved(run):
                 n += 1
                 expr = rootp + "." + ".".join(chain)
                 seen.add(expr)
+                if rootp == "numpy.ndarray":
+                    import numpy
+                    if not hasattr(numpy.ndarray, chain[0]):
+                        bad.append({"file": rel, "line": line, "expr": "<ndarray>." + chain[0],
+                                    "why": "is not an attribute of numpy.ndarray in the installed numpy"})
+                    continue
                 mobj, mpath, rest = ex.resolve_module(rootp)
                 cur = mobj
                 okk = cur is not None
